@@ -233,20 +233,22 @@ Egress(p, VH(_, _, _, _, _)) ==
 (* ---- P-layer, stated over one call: before-state b, result r ---------------- *)
 \* C11/C12: an operation that reports an error leaves the bytes as they were
 ErrIsAtomicCall(b, r) == r.k = "err" => r.p = b
-\* C11: no call moves a pointer backwards; a call that moves CurrHF moves it by one, and
-\* CurrINF moves (by one) exactly when the hop pointer crosses into the next segment
+\* C11: no call moves a pointer backwards; a call that succeeds moves CurrHF by at most one, and
+\* CurrINF moves (by one) exactly when the hop pointer crosses into the next segment.
+\* A validation failure (ValidationFailed) is a rejection after processing: only "not backwards".
 MonotoneCall(b, r) ==
-  r.k # "err" =>
-    /\ r.p.ch \in {b.ch, b.ch + 1}
-    /\ r.p.ci \in {b.ci, b.ci + 1}
-    /\ (r.p.ci = b.ci + 1 => r.p.ch = b.ch + 1)
-    /\ r.p.sl = b.sl
-    \* CurrINF moves exactly when CurrHF crosses into another segment of the segment table
-    /\ LET s0 == SegIndex(b.sl, b.ch).seg
-           s1 == SegIndex(b.sl, r.p.ch).seg IN
-       (r.p.ch # b.ch /\ s1 # -1) => ((r.p.ci = b.ci + 1) <=> (s1 # s0))
-\* an egress call that does not fail is a forward step: strictly larger CurrHF
-EgressForward(b, r) == r.k # "err" => r.p.ch = b.ch + 1
+  /\ r.k = "vfail" => (r.p.ch >= b.ch /\ r.p.ci >= b.ci)
+  /\ r.k = "ok" =>
+      /\ r.p.ch \in {b.ch, b.ch + 1}
+      /\ r.p.ci \in {b.ci, b.ci + 1}
+      /\ (r.p.ci = b.ci + 1 => r.p.ch = b.ch + 1)
+      /\ r.p.sl = b.sl
+      \* CurrINF moves exactly when CurrHF crosses into another segment of the segment table
+      /\ LET s0 == SegIndex(b.sl, b.ch).seg
+             s1 == SegIndex(b.sl, r.p.ch).seg IN
+         (r.p.ch # b.ch /\ s1 # -1) => ((r.p.ci = b.ci + 1) <=> (s1 # s0))
+\* an egress call that succeeds is a forward step: strictly larger CurrHF
+EgressForward(b, r) == r.k = "ok" => r.p.ch = b.ch + 1
 \* an ingress call that asks for forwarding out of the *next* segment has moved both pointers
-XoverForward(b, r) == (r.k # "err" /\ r.p.ci # b.ci) => (r.p.ch = b.ch + 1 /\ r.p.ci = b.ci + 1)
+XoverForward(b, r) == (r.k = "ok" /\ r.p.ci # b.ci) => (r.p.ch = b.ch + 1 /\ r.p.ci = b.ci + 1)
 =============================================================================
